@@ -9,6 +9,7 @@ import (
 	"crypto/tls"
 	"errors"
 	"fmt"
+	"net"
 	"slices"
 	"strings"
 
@@ -45,6 +46,11 @@ var clientALPNs = [][]string{nil, {"h2"}, {"h2", "http/1.1"}}
 var backendALPNs = [][]string{nil, {"http/1.1", "h2"}}
 
 func serverName(n int) string {
+	// n = 0: the client names its server by IP literal: no server_name extension is sent at all (neither inner nor ... the
+	// outer hello still carries the public name)
+	if n == 0 {
+		return "192.0.2.77"
+	}
 	// valid DNS name of exactly n bytes with >= 2 labels
 	if n < 3 {
 		n = 3
@@ -225,8 +231,12 @@ func evalCfg(c cfg) (key, what, oc string) {
 		if conn == nil || !conn.ECHAccepted() {
 			return "conn-not-accepted:" + phase, "Conn.ECHAccepted() is false on a fresh config"
 		}
-		if conn.ServerName() != name || o.SeenName != name {
-			return "server-name:" + phase, fmt.Sprintf("Conn.ServerName()=%q backend saw %q, client asked %q", conn.ServerName(), o.SeenName, name)
+		wantSN := name
+		if net.ParseIP(name) != nil {
+			wantSN = "" // an IP literal is never sent as server_name: the inner hello has none, and that is what must be reported
+		}
+		if conn.ServerName() != wantSN || o.SeenName != wantSN {
+			return "server-name:" + phase, fmt.Sprintf("Conn.ServerName()=%q backend saw %q, client asked %q (server_name on the wire: %q)", conn.ServerName(), o.SeenName, name, wantSN)
 		}
 		if !slices.Equal(conn.ALPNProtos(), clientALPNs[c.ClientALPN]) || !slices.Equal(o.SeenProtos, clientALPNs[c.ClientALPN]) {
 			return "alpn-list:" + phase, fmt.Sprintf("Conn.ALPNProtos()=%q backend saw %q, client offered %q", conn.ALPNProtos(), o.SeenProtos, clientALPNs[c.ClientALPN])
@@ -298,15 +308,15 @@ func classify(errStr string, c cfg) string {
 }
 
 func Run(r *ev.Run) {
-	r.Rule("E1 exhaustive product of real-stack configurations: client curve lists {default(X25519MLKEM768 first), [X25519], [P256], [X25519,P256]} x backend curves {default,[P256]} (HelloRetryRequest whenever the first share is unusable) x client ALPN {none,[h2],[h2,http/1.1]} x backend ALPN {none,[http/1.1,h2]} x server-name length {3,63,253} x session cache {cold, warm: second connection resumes} x client certificate {none, small, 17 KB} x backend certificate {0.5, 12, 17, 40 KB} x key set {[T],[T,other id],[same id,T],[T,same id]} x AEAD {1,2,3} x client config {fresh, stale other id, stale same id, stale same id with a former public name}; quick = full product over a reduced domain per dimension (stated in evidence), thorough = full product. Each point: direct handshake without ech.Conn as oracle, then split-mode handshake(s); distinct = distinct configuration points that are conforming (direct handshake succeeds)")
+	r.Rule("E1 exhaustive product of real-stack configurations: client curve lists {default(X25519MLKEM768 first), [X25519], [P256], [X25519,P256]} x backend curves {default,[P256]} (HelloRetryRequest whenever the first share is unusable) x client ALPN {none,[h2],[h2,http/1.1]} x backend ALPN {none,[http/1.1,h2]} x server name {an IP literal (no server_name sent), DNS names of 3, 63, 253 bytes} x session cache {cold, warm: second connection resumes} x client certificate {none, small, 17 KB} x backend certificate {0.5, 12, 17, 40 KB} x key set {[T],[T,other id],[same id,T],[T,same id]} x AEAD {1,2,3} x client config {fresh, stale other id, stale same id, stale same id with a former public name}; quick = full product over a reduced domain per dimension (stated in evidence), thorough = full product. Each point: direct handshake without ech.Conn as oracle, then split-mode handshake(s); distinct = distinct configuration points that are conforming (direct handshake succeeds)")
 	r.Assume("crypto/tls (go1.24) client and server are conforming TLS 1.3 / ECH implementations", "real TLS stacks run goroutines outside any scheduler: a failing point is re-executed and reported only if it fails 5 times out of 5 (else counted as unstable)")
 	type dom struct {
 		cc, bc, ca, ba, nl, warm, cert, chain, ks, aead, stale []int
 	}
-	d := dom{cc: []int{0, 1, 2, 3}, bc: []int{0, 1}, ca: []int{0, 1, 2}, ba: []int{0, 1}, nl: []int{3, 63, 253}, warm: []int{0, 1},
+	d := dom{cc: []int{0, 1, 2, 3}, bc: []int{0, 1}, ca: []int{0, 1, 2}, ba: []int{0, 1}, nl: []int{0, 3, 63, 253}, warm: []int{0, 1},
 		cert: []int{-1, 0, 17000}, chain: []int{0, 12000, 17000, 40000}, ks: []int{0, 1, 2, 3}, aead: []int{1, 2, 3}, stale: []int{0, 1, 2, 3}}
 	if !r.Thorough() {
-		d = dom{cc: []int{0, 3}, bc: []int{0, 1}, ca: []int{0, 2}, ba: []int{0, 1}, nl: []int{3, 253}, warm: []int{0, 1},
+		d = dom{cc: []int{0, 3}, bc: []int{0, 1}, ca: []int{0, 2}, ba: []int{0, 1}, nl: []int{0, 3, 253}, warm: []int{0, 1},
 			cert: []int{-1, 17000}, chain: []int{0, 17000, 40000}, ks: []int{0, 2}, aead: []int{1, 3}, stale: []int{0, 1, 2, 3}}
 	}
 	r.Set("domain", fmt.Sprintf("%+v", d))
